@@ -445,12 +445,13 @@ def pipeline(job, trace_props=None, tag="", force_degraded=None):
         log.close()
 
 
-def spec_obligation(job, prop, func, desc):
+def spec_obligation(job, prop, func, desc, file_=None):
     """obligations of the specification itself (harness assertions, contract clauses, GUARANTEEs, asserts of the stubs and
     of the functions under contract) -- as opposed to generic safety checks of code that runs outside its contracts"""
     pr = prop or ""
+    in_harness_tu = bool(file_) and (os.path.abspath(file_).startswith(CONTRACTS + os.sep) or os.path.abspath(file_).startswith(os.path.join(WORK, "gen")))
     return (func == job.harness or ".precondition." in pr or ".postcondition." in pr or desc.startswith("GUARANTEE") or
-            (".assertion." in pr and (func in job.fuc or (func or "").startswith("verif_"))))
+            (".assertion." in pr and (func in job.fuc or (func or "").startswith("verif_") or in_harness_tu)))
 
 
 def stop_on_fail(job, cmd, wd, log, spec_only=False):
@@ -472,7 +473,7 @@ def stop_on_fail(job, cmd, wd, log, spec_only=False):
         key = "%s:%s: %s" % (job.name, fn, desc)
         if CANARY in desc or any(rx.search(key) for rx in skip) or (fn.startswith("h_") and fn != job.harness):
             continue
-        if spec_only and not spec_obligation(job, name, fn, desc):
+        if spec_only and not spec_obligation(job, name, fn, desc, file_):
             continue
         sel.append(name)
     if not sel:
@@ -605,7 +606,7 @@ def run_unit(pid, jobs, tier, seed=0, only=None):
         if info.get("degraded"):
             # only counterexamples count; nothing is proved
             bad = [o for o in rest if o.status == "FAILURE" and "unwinding assertion" not in o.desc
-                   and spec_obligation(job, o.prop, o.func, o.desc)
+                   and spec_obligation(job, o.prop, o.func, o.desc, o.file)
                    and not any(p_ in ("*", pid, o.job[:3].upper()) and rx.search(o.key()) for (p_, rx, r_) in benign)
                    and not any(p_ == pid and rx.search(o.key()) for (p_, rx, t_) in known)]
             for o in bad:
